@@ -24,7 +24,8 @@ func runC13(c *Ctx) {
 	c.Rule("R13.1", 2, "a lexeme pending at end of input is evaluated before the end of input is reported")
 	c.Rule("R13.2", 2, "only end-of-input becomes the end marker; other read errors are returned")
 	c.Rule("R13.3", 3, "the skipped terminals are exactly the layout terminals")
-	c.Rule("R13.4", 2, "reader half size is a positive constant passed to the reader")
+	c.Rule("R13.4", 2, "file name and unmodified text are handed to the reader")
+	c.Rule("R13.5", 1, "no buffer-half boundary is ever reached: the half holds the whole text")
 
 	lp := c.Pkg("internal/ebnf/lexer")
 	if lp == nil {
@@ -95,8 +96,7 @@ func runC13(c *Ctx) {
 			}
 			if fo, ok := objOf(info, call.Fun).(*types.Func); ok && fo.Pkg() != nil && fo.Pkg().Path() == depPath+"/lexer/input" && fo.Name() == "New" {
 				found = true
-				v, isConst := constInt(info, call.Args[2])
-				c.Check("R13.4", "the reader's half size is a positive constant", call.Pos(), isConst && v > 0, fmt.Sprintf("third argument of input.New is %s", types.ExprString(call.Args[2])))
+				checkHalfHoldsText(c, lp, newFn)
 				p0 := info.Defs[newFn.Type.Params.List[0].Names[0]]
 				p1 := info.Defs[newFn.Type.Params.List[1].Names[0]]
 				c.Check("R13.4", "the file name is passed through to the reader", call.Pos(), objOf(info, call.Args[0]) == p0, "lexer.New does not pass its own filename to input.New")
@@ -154,6 +154,8 @@ func checkPendingAtEOF(c *Ctx, rule string, sl *scanLoop, where string) {
 		c.Check(rule, where+": only end-of-input triggers the pending evaluation", st.call.Pos(), isEOF, "a read error other than io.EOF is swallowed by evaluating the pending state")
 	}
 }
+
+var _ = fmt.Sprint
 
 func rootGlobal(v ssa.Value) (string, bool) {
 	for {
@@ -446,4 +448,89 @@ func checkSourceUnmodified(c *Ctx, rule string, lp *packages.Package, newFn *ast
 	if !found {
 		c.Lost(rule, "call of input.New in lexer.New")
 	}
+}
+
+
+// checkHalfHoldsText (R13.5): the dependency's two-buffer reader reloads a half whenever forward arrives at a half boundary,
+// also on re-arrival after Retract, so layout independence needs that a boundary is never reached: on every path the half
+// size given to the reader exceeds the length of the text it is given.
+func checkHalfHoldsText(c *Ctx, lp *packages.Package, newFn *ast.FuncDecl) {
+	fn := c.SSAFunc(lp, newFn)
+	if fn == nil {
+		c.Lost("R13.5", "SSA of lexer.New")
+		return
+	}
+	var call *ssa.Call
+	allCalls(fn, func(ci ssa.CallInstruction) {
+		if staticCalleeName(ci) == depPath+"/lexer/input.New" {
+			call, _ = ci.(*ssa.Call)
+		}
+	})
+	if call == nil {
+		c.Lost("R13.5", "call of input.New")
+		return
+	}
+	// the text: the byte slice wrapped by the reader argument
+	var text ssa.Value
+	var find func(v ssa.Value, d int)
+	find = func(v ssa.Value, d int) {
+		if d > 6 || text != nil {
+			return
+		}
+		switch x := v.(type) {
+		case *ssa.MakeInterface:
+			find(x.X, d+1)
+		case *ssa.Call:
+			if n := staticCalleeName(x); n == "bytes.NewReader" || n == "bytes.NewBuffer" {
+				text = x.Call.Args[0]
+			}
+		}
+	}
+	find(call.Call.Args[1], 0)
+	size := call.Call.Args[2]
+	exceeds := func(v ssa.Value, blockConds []cond) bool {
+		// v == len(text) + k with k >= 1
+		if bo, ok := v.(*ssa.BinOp); ok && bo.Op == token.ADD && text != nil && lenOf(bo.X, text) {
+			if k, ok := bo.Y.(*ssa.Const); ok && k.Value != nil && k.Int64() >= 1 {
+				return true
+			}
+		}
+		// v == K constant, on a path where len(text) < K
+		if k, ok := v.(*ssa.Const); ok && k.Value != nil && text != nil {
+			for _, cd := range blockConds {
+				bo, ok := cd.v.(*ssa.BinOp)
+				if !ok || !lenOf(bo.X, text) {
+					continue
+				}
+				kk, ok := bo.Y.(*ssa.Const)
+				if !ok || kk.Value == nil {
+					continue
+				}
+				lt := (bo.Op == token.LSS && cd.pol && kk.Int64() <= k.Int64()) || (bo.Op == token.GEQ && !cd.pol && kk.Int64() <= k.Int64()) ||
+					(bo.Op == token.LEQ && cd.pol && kk.Int64() < k.Int64()) || (bo.Op == token.GTR && !cd.pol && kk.Int64() < k.Int64())
+				if lt {
+					return true
+				}
+			}
+		}
+		return false
+	}
+	ok := false
+	why := "the half size is " + describeVal(size)
+	if text == nil {
+		why = "the reader is not given an in-memory text whose length is known (a streamed source can be longer than any fixed half)"
+	} else if phi, isPhi := size.(*ssa.Phi); isPhi {
+		ok = true
+		for i, e := range phi.Edges {
+			if !exceeds(e, condsOnEdge(phi.Block().Preds[i], phi.Block())) {
+				ok = false
+				why = "on one path the half size " + describeVal(e) + " does not exceed the length of the text"
+			}
+		}
+	} else {
+		ok = exceeds(size, controlConds(call.Block()))
+	}
+	c.Check("R13.5", "the reader's half is larger than the whole text, so no buffer-half boundary is ever reached", call.Pos(), ok,
+		why+": the dependency's reader reloads a half when forward arrives at a boundary again after Retract, so a token that begins on the last byte of a half makes 4096 bytes of the specification disappear",
+		"a specification longer than 4096 bytes with a token starting at offset 4095")
 }
